@@ -55,9 +55,13 @@ func DecodeAuthenticationStrategyHookFunc(ctx CreationContext) mapstructure.Deco
 
 		if m, ok := data.(map[any]any); ok {
 			for k, v := range m {
-				// nolint: forcetypeassert
-				// ok if panics
-				typed[k.(string)] = v
+				key, ok := k.(string)
+				if !ok {
+					return nil, errorchain.NewWithMessagef(heimdall.ErrConfiguration,
+						"unexpected key type %T in authentication strategy configuration", k)
+				}
+
+				typed[key] = v
 			}
 		} else if m, ok := data.(map[string]any); ok {
 			typed = m
